@@ -64,8 +64,8 @@ TEXTS = {
                      '(lemma_forced_fails). Counter-models replay on the real predicates. Bounded: the one-line corollary for documents and for '
                      'values at widths L, L+1, L+2 (the corollary over pformat is not proved).',
                 note=_ENC + 'same assumptions as C04.'),
-    'C07': dict(category='other', engine='bounded', technique=_BOUNDED,
-                text='Bounded: 263 boundary values of the 20 shipped stdlib types, all 597 pytz zones, seeded random datetime-family values x 7 '
+    'C07': dict(category='other', engine='pyvc+bounded', technique=_PYVC + '; ' + _BOUNDED,
+                text='Proved for all inputs (family printers): the deque, defaultdict, OrderedDict, Counter, mappingproxy, UUID and exception printers return exactly one constructor call - deque(list(d), maxlen=d.maxlen) with the keyword iff maxlen is not None, defaultdict(d.default_factory, dict(d)), OrderedDict(list(d.items())), Counter(dict(c.most_common())), type(e)(*e.args) - whose faithfulness is the constructor protocol of the standard library (assumed). These clauses pin the call the printer chose, so a refuted one counts as a violation only with a replayed failing value. Totality and the other types are decided by the bounded stand-in. Bounded: 263 boundary values of the 20 shipped stdlib types, all 597 pytz zones, seeded random datetime-family values x 7 '
                      'nesting contexts x 8 (95 thorough) configurations: no failure warning, eval reconstructs an equal object. Two known findings.',
                 note='CPython eval as oracle.'),
     'C08': dict(category='other', engine='pyvc+bounded', technique=_PYVC + '; ' + _BOUNDED,
